@@ -1457,6 +1457,10 @@ func (e *Engine) eval(s *state, fr *frame, v ssa.Value) *Term {
 				return mk("const", a.Name, 0, x.Type())
 			}
 		}
+		if _, fromSlice := x.X.Type().Underlying().(*types.Slice); fromSlice {
+			// []byte -> string copies the bytes at this point in time (matters for views that are later invalidated)
+			s.emit(Event{Kind: "copyconv", Args: []*Term{a}, Pos: x.Pos(), Ctx: fr.ctx, Depth: fr.depth, InFn: fr.fn})
+		}
 		return mk("conv", typeStr(x.Type()), 0, x.Type(), a)
 	case *ssa.SliceToArrayPointer:
 		sb := e.val(s, fr, x.X)
